@@ -929,9 +929,11 @@ static void run_sub_apis(int codec, const gbuf *src, const uint64_t *xs,
 }
 
 /* header accessors: C16 */
+static long g_acc_idx = -1; /* element the accessor was asked about, when it takes one */
 static void acc_emit(int codec, const char *api, int f, long long ret,
                      int has_val, uint64_t val) {
     ev_begin("Acc");
+    ev_int("idx", g_acc_idx);
     ev_int("sc", (long long)scen_id);
     ev_str("codec", CODEC[codec]);
     ev_str("api", api);
@@ -982,6 +984,19 @@ static void run_accessors(int codec, const gbuf *src, size_t written, size_t n) 
         acc_emit(codec, "GetSize", f, (long long)r, 0, 0);
         f = GUARDED(r = varintGroupGetFieldCount(s));
         acc_emit(codec, "GetFieldCount", f, (long long)r, 0, 0);
+        {
+            size_t cand[] = {0, 1, n / 2, n - 1, 3, 4, 15, 16, 17, 31, 32, 47, 48, 63};
+            for (size_t i = 0; i < sizeof(cand) / sizeof(cand[0]); i++) {
+                if (cand[i] >= n) {
+                    continue;
+                }
+                varintWidth w = 0;
+                f = GUARDED(w = varintGroupGetFieldWidth(s, (uint8_t)cand[i]));
+                g_acc_idx = (long)cand[i];
+                acc_emit(codec, "GetFieldWidth", f, (long long)w, 0, 0);
+                g_acc_idx = -1;
+            }
+        }
         break;
     }
     case C_RLE:
@@ -1165,10 +1180,19 @@ static void scenario(int codec, long param, size_t n, const char *shape,
             run_sub_apis(codec, &src, xs, x32, n);
         }
         if (what & 4) {
-            size_t caps[] = {0, 1, n - 1, n / 2, 127, 128, 129, n > 128 ? n - 128 : 0};
-            size_t seen[8];
+            /* every capacity below the count for short arrays, the block and
+             * count boundaries otherwise */
+            size_t caps[32] = {0, 1, n - 1, n / 2, 127, 128, 129, n > 128 ? n - 128 : 0};
+            size_t ncaps = 8;
+            if (n <= 24) {
+                ncaps = 0;
+                for (size_t c = 0; c < n; c++) {
+                    caps[ncaps++] = c;
+                }
+            }
+            size_t seen[32];
             size_t ns = 0;
-            for (size_t i = 0; i < 8; i++) {
+            for (size_t i = 0; i < ncaps; i++) {
                 size_t c = caps[i];
                 if (c >= n) {
                     continue;
